@@ -235,6 +235,13 @@ template <class T>
 int
 V2<T>::convert (PyObject *p, IMATH_NAMESPACE::Vec2<T> *v)
 {
+    boost::python::extract <IMATH_NAMESPACE::Vec2<T> > extractorSelf (p);
+    if (extractorSelf.check())
+    {
+        *v = extractorSelf();
+        return 1;
+    }
+
     boost::python::extract <IMATH_NAMESPACE::V2i> extractorV2i (p);
     if (extractorV2i.check())
     {
@@ -311,6 +318,13 @@ template <class T>
 int
 V3<T>::convert (PyObject *p, IMATH_NAMESPACE::Vec3<T> *v)
 {
+    boost::python::extract <IMATH_NAMESPACE::Vec3<T> > extractorSelf (p);
+    if (extractorSelf.check())
+    {
+        *v = extractorSelf();
+        return 1;
+    }
+
     boost::python::extract <IMATH_NAMESPACE::V3i> extractorV3i (p);
     if (extractorV3i.check())
     {
@@ -385,6 +399,13 @@ template <class T>
 int
 V4<T>::convert (PyObject *p, IMATH_NAMESPACE::Vec4<T> *v)
 {
+    boost::python::extract <IMATH_NAMESPACE::Vec4<T> > extractorSelf (p);
+    if (extractorSelf.check())
+    {
+        *v = extractorSelf();
+        return 1;
+    }
+
     boost::python::extract <IMATH_NAMESPACE::V4i> extractorV4i (p);
     if (extractorV4i.check())
     {
